@@ -99,7 +99,16 @@ func (f *Frame) call(in ssa.Instruction, cc *ssa.CallCommon, st *State) []Term {
 		if cl, ok := c.eng.closures[fv[0].S]; ok {
 			return f.inline(cl.fn, args, cl.binds, st, in)
 		}
-		return f.opaqueCall(in, cc, nil, args, st)
+		res := f.opaqueCall(in, cc, nil, args, st)
+		// a function value loaded from a struct field is recorded under the field's name
+		if ld, ok := cc.Value.(*ssa.UnOp); ok {
+			if fa, ok := ld.X.(*ssa.FieldAddr); ok {
+				if stt, ok := deref(fa.X.Type()).Underlying().(*types.Struct); ok && !st.dead() {
+					f.recordCall(st, cc, res, stt.Field(fa.Field).Name())
+				}
+			}
+		}
+		return res
 	}
 	if mc, ok := cc.Value.(*ssa.MakeClosure); ok {
 		cl := c.eng.closures[f.get(mc)[0].S]
@@ -130,6 +139,13 @@ func (f *Frame) call(in ssa.Instruction, cc *ssa.CallCommon, st *State) []Term {
 			return []Term{v}
 		}
 		return []Term{TFalse}
+	case "__ghost":
+		k, ok := cc.Args[0].(*ssa.Const)
+		if !ok {
+			c.unsupported(f, "__ghost needs a string literal")
+		}
+		g := c.heapGet(st, "G|"+constant.StringVal(k.Value), ArrSort(SInt, SInt))
+		return []Term{Select(g, IntLit(0))}
 	case "__canUnread":
 		g := c.heapGet(st, ghostCanUnread, ArrSort(SInt, SBool))
 		return []Term{Select(g, args[0][0])}
@@ -177,7 +193,7 @@ func (f *Frame) call(in ssa.Instruction, cc *ssa.CallCommon, st *State) []Term {
 		// itself; it is not a contract for its callers
 		blk = nil
 	}
-	if blk != nil && (len(blk.Pre) > 0 || len(blk.Post) > 0 || blk.Flags["lemma"] || blk.Flags["trusted"] || blk.Flags["opaque"]) && callee != f.topFrame().fn {
+	if blk != nil && (len(blk.Pre) > 0 || len(blk.Post) > 0 || len(blk.GhostInc) > 0 || blk.Flags["lemma"] || blk.Flags["trusted"] || blk.Flags["opaque"]) && callee != f.topFrame().fn {
 		return f.applyContract(in, cc, callee, blk, args, st)
 	}
 	if blk != nil && callee == f.topFrame().fn {
@@ -595,8 +611,25 @@ func (f *Frame) applyContract(in ssa.Instruction, cc *ssa.CallCommon, callee *ss
 			c.note("assumed", "assumed frame of "+blk.QualName()+": modifies only "+strings.Join(blk.Modifies, ", "))
 		}
 	}
+	// ghost counter events of the callee (definitional): conditions are read in the pre-state
+	type ginc struct {
+		name string
+		inc  Term
+		old  Term
+	}
+	var gincs []ginc
+	for _, gcl := range blk.GhostInc {
+		cond := c.evalSpecFn(gcl.Fn, args, st, snapOf(st), f)[0]
+		key := "G|" + gcl.Callee
+		g := c.heapGet(st, key, ArrSort(SInt, SInt))
+		gincs = append(gincs, ginc{key, Ite(cond, IntLit(1), IntLit(0)), Select(g, IntLit(0))})
+	}
 	f.havocFor(callee, blk, cc, st)
 	f.pointwise = nil
+	for _, gi := range gincs {
+		g := c.heapGet(st, gi.name, ArrSort(SInt, SInt))
+		c.setHeap(st, gi.name, c.define("ghost", Store(g, IntLit(0), Add(gi.old, gi.inc))))
+	}
 	res := f.freshResults(cc, st, callee.Name())
 	var resVals [][]Term
 	rt := cc.Signature().Results()
@@ -629,6 +662,7 @@ func (f *Frame) applyContract(in ssa.Instruction, cc *ssa.CallCommon, callee *ss
 // havocFor havocs what a callee may modify.
 func (f *Frame) havocFor(callee *ssa.Function, blk *Block, cc *ssa.CallCommon, st *State) {
 	c := f.ctx
+	f.setPassedRefs(cc)
 	if blk != nil && (blk.Flags["pure"] || blk.Flags["lemma"]) {
 		return
 	}
@@ -657,6 +691,42 @@ func (f *Frame) havocFor(callee *ssa.Function, blk *Block, cc *ssa.CallCommon, s
 
 func (f *Frame) havocKeys(ms *modSet, st *State) {
 	c := f.ctx
+	// Local objects of the calling function whose address is not handed to
+	// the callee keep their contents (assumption: callees do not retain
+	// pointers to their caller's locals beyond the call).
+	type keep struct {
+		key string
+		ref Term
+		val Term
+	}
+	var keeps []keep
+	if !ms.all {
+		for fr := f; fr != nil; fr = fr.parent {
+			for _, lo := range fr.localObjs {
+				if f.passedRefs != nil && f.passedRefs[lo.ref.S] {
+					continue
+				}
+				lay := layout(lo.typ)
+				for k := range lay {
+					key := objKey(lo.typ, k)
+					if !ms.keys[key] {
+						continue
+					}
+					h := c.heapGet(st, key, c.heapSort(key, lay[k]))
+					keeps = append(keeps, keep{key, lo.ref, Select(h, lo.ref)})
+				}
+			}
+		}
+	}
+	defer func() {
+		if len(keeps) > 0 {
+			c.note("assumed", "callees do not retain pointers to their caller's local variables beyond the call")
+		}
+		for _, kp := range keeps {
+			h := st.Heap[kp.key]
+			c.setHeap(st, kp.key, c.define("heap", Store(h, kp.ref, kp.val)))
+		}
+	}()
 	if ms.all {
 		c.havocAllHeap(st)
 	}
@@ -765,6 +835,7 @@ func (f *Frame) opaqueCall(in ssa.Instruction, cc *ssa.CallCommon, callee *ssa.F
 		}
 		fake := &ssa.Call{Call: *cc}
 		c.eng.directWrites(f.fn, fake, ms)
+		f.setPassedRefs(cc)
 		f.havocKeys(ms, st)
 	} else {
 		f.havocFor(callee, nil, cc, st)
@@ -865,6 +936,7 @@ func (f *Frame) invoke(in ssa.Instruction, cc *ssa.CallCommon, st *State) []Term
 	}
 	fake := &ssa.Call{Call: *cc}
 	c.eng.directWrites(f.fn, fake, ms)
+	f.setPassedRefs(cc)
 	f.havocKeys(ms, st)
 	f.havocEscapedCells(cc, st)
 	res := f.freshResults(cc, st, cc.Method.Name())
@@ -1170,4 +1242,48 @@ func (f *Frame) externUF(fn *ssa.Function, args [][]Term) []Term {
 		out[k] = app(l.Sort, n, flat...)
 	}
 	return out
+}
+
+type localObj struct {
+	ref Term
+	typ types.Type
+}
+
+// setPassedRefs records which references are handed to the callee: pointer
+// arguments, the receiver of an interface call and the variables captured by
+// closures passed as arguments (one level of objects reachable through them
+// is not tracked: a local whose address is stored in another object counts as
+// escaped through that object, see execStore).
+func (f *Frame) setPassedRefs(cc *ssa.CallCommon) {
+	f.passedRefs = map[string]bool{}
+	add := func(v ssa.Value) {
+		ts := f.get(v)
+		for _, t := range ts {
+			f.passedRefs[t.S] = true
+		}
+		if len(ts) == 1 {
+			if cl, ok := f.ctx.eng.closures[ts[0].S]; ok {
+				for _, b := range cl.binds {
+					for _, t := range b {
+						f.passedRefs[t.S] = true
+					}
+				}
+			}
+		}
+	}
+	if cc.IsInvoke() {
+		add(cc.Value)
+	} else if _, ok := cc.Value.(*ssa.Function); !ok {
+		if _, isB := cc.Value.(*ssa.Builtin); !isB {
+			add(cc.Value)
+		}
+	}
+	for _, a := range cc.Args {
+		add(a)
+	}
+	for fr := f; fr != nil; fr = fr.parent {
+		for s := range fr.leaked {
+			f.passedRefs[s] = true
+		}
+	}
 }
